@@ -110,6 +110,8 @@ func registerStreams() {
 		s.items = append(s.items, streamItem{n: n, end: s.total, garbage: true})
 		return nil
 	})
+	// a whole message that does not decode (message-framed connections)
+	intrinsics["H.vStreamPutBadMsg"] = intrinsics["H.vStreamPutGarbage"]
 	reg("H.vStreamClose", func(e *Exec, th *Thread, a []Value) Value {
 		e.streamOf(a[0]).closed = true
 		return nil
@@ -216,10 +218,19 @@ func registerStreams() {
 			e.raise(th, "nil-dereference", nil)
 		}
 		d := p.obj.val.(*DecData)
+		return e.decoderDecode(th, d, a[1].(IfaceV), false)
+	})
+	_ = types.Typ
+}
+
+// decoderDecode: one Decode call of a json.Decoder model. In message mode (ws: the reader is a
+// message-framed connection, one stream item per message) a value is handed over once its whole frame
+// has arrived, an undecodable message fails that call only, and every read error is kept.
+func (e *Exec) decoderDecode(th *Thread, d *DecData, target IfaceV, ws bool) Value {
+	{
 		if !isNilErr(d.err) {
 			return d.err
 		}
-		target := a[1].(IfaceV)
 		if target.t == nil || !isPtrKind(target.t) || target.v.(PtrV).IsNil() {
 			return e.jsonErr("Decode(non-pointer or nil)")
 		}
@@ -254,10 +265,16 @@ func registerStreams() {
 					// undecodable bytes: the error is raised as soon as the first offending byte is seen
 					need = BVBin("bvadd", BVBin("bvsub", it.end, it.n), IntC(1))
 				}
+				if ws {
+					need = it.end
+				}
 				pos := BVBin("bvadd", d.base, d.total)
 				if e.branch(BVCmp("bvsle", need, pos)) {
 					d.next++
 					if it.garbage {
+						if ws {
+							return e.jsonErr("invalid character looking for beginning of value")
+						}
 						d.err = e.jsonErr("invalid character looking for beginning of value")
 						return d.err
 					}
@@ -291,7 +308,9 @@ func registerStreams() {
 				if d.base != nil {
 					pos = BVBin("bvadd", d.base, d.total)
 				}
-				if e.errorsIs(th, r[1], e.sentinel("io.EOF")).IsTrue() && e.branch(BVCmp("bvslt", start, pos)) {
+				if ws && e.errorsIs(th, r[1], e.sentinel("io.EOF")).IsTrue() {
+					d.err = e.mkErr("websocket: close 1006 (abnormal closure): unexpected EOF", nil)
+				} else if e.errorsIs(th, r[1], e.sentinel("io.EOF")).IsTrue() && e.branch(BVCmp("bvslt", start, pos)) {
 					d.err = e.sentinel("io.ErrUnexpectedEOF")
 				} else {
 					d.err = r[1]
@@ -301,8 +320,7 @@ func registerStreams() {
 			d.total = BVBin("bvadd", d.total, n)
 		}
 		panic(pathEnd{kind: "inconclusive", msg: "unwinding bound exceeded in json.Decoder model (reads per Decode)"})
-	})
-	_ = types.Typ
+	}
 }
 
 
